@@ -778,7 +778,7 @@ def call_generator(I, st, f, args, kwargs):
     st.frames.append(fr)
     old = lazy_begin(st)
     for st1, ctrl in I.ex_block(f.node.body, st):
-        st1.frames.pop()
+        I.pop_frame(st1)
         lazy_end(st1, old, acc)
         if ctrl is None or ctrl[0] == "return":
             yield st1, acc
